@@ -49,6 +49,7 @@ CHECKS = {
     'C14': 'dst.checks.c14',
     'C15': 'dst.checks.c15',
     'C16': 'dst.checks.c16',
+    'C20': 'dst.checks.c20',
 }
 
 DEFAULT_SEEDS = {'quick': 400, 'thorough': 20000}
